@@ -323,3 +323,22 @@ CHECKS["C17"] = {
     ],
     "assumptions": ["values longer than the stdio buffer are C14's subject"],
 }
+
+CHECKS["C15"] = {
+    "engine": "E1",
+    "technique": "bounded exhaustive enumeration of option-specific files (repeated keys, indented lines) and of ALL option strings up to a length over the documented items, real parser / tokenizer against by-construction expectations",
+    "level_text": "JOIN: every file of <= n lines over {k=a, k=b, k=, k=a+continuation, j=b, j=, [A]} read with and without JOIN_SAME_ENTRIES=1, value lists "
+                  "(plain and extended getter) = lines of all definitions since the last empty one / first definition; PYTHON: entry line x every sequence of "
+                  "<= m indented lines containing delimiters, comment characters, blanks, look-alike redefinitions x optional next entry; option strings: every "
+                  "sequence of <= 3 items over 8 documented items (two variants per valued item so that 'last occurrence wins' is observable through "
+                  "econf_readConfig) and the same with one of four unknown/misspelt items in every position",
+    "level_note": "bounded: JOIN n<=6 (quick) / 7 (thorough); PYTHON m<=4; option strings <= 3 / 4 items; an indented line starting with '[' or a comment character under PYTHON_STYLE is outside the statement (C05/C02 vs C15) and not generated",
+    "rule": "case = one file / one option string; non-trivial = a key defined more than once / at least one indented line / an accepted string whose effect is observed; distinct by construction",
+    "deadline": {"quick": 100, "thorough": 900},
+    "parts": [
+        {"name": "join", "harness": "c15", "variant": "asan", "quick": ["--p0", 0, "--p1", 6], "thorough": ["--p0", 0, "--p1", 7], "deadline_share": 0.4, "floor": {"quick": 10000, "thorough": 10000}},
+        {"name": "python", "harness": "c15", "variant": "asan", "quick": ["--p0", 1, "--p1", 4], "thorough": ["--p0", 1, "--p1", 4], "deadline_share": 0.3, "floor": {"quick": 5000, "thorough": 5000}},
+        {"name": "options", "harness": "c15", "variant": "asan", "quick": ["--p0", 2, "--p1", 3], "thorough": ["--p0", 2, "--p1", 4], "deadline_share": 0.3, "floor": {"quick": 300, "thorough": 3000}},
+    ],
+    "assumptions": ["JOIN_SAME_ENTRIES=0 / PYTHON_STYLE=0 are not documented items and not used"],
+}
